@@ -5,6 +5,7 @@ import (
 	"bytes"
 	"encoding/json"
 	"fmt"
+	"io"
 	"strings"
 
 	"github.com/biogo/biogo/alphabet"
@@ -174,14 +175,16 @@ func check(c *enum.Ctx, k kase) {
 				fail("write", "%v", err)
 				return
 			}
-			r0, _ := bed.NewReader(bytes.NewReader(text), k.BedTyp)
+			src0 := bytes.NewReader(text)
+			r0, _ := bed.NewReader(src0, k.BedTyp)
 			want, _, err := featgen.ReadFeatures(r0, len(k.Bed)+2)
 			if err != nil || len(want) != len(k.Bed) {
 				fail("canonical-read", "canonical file: %d records, err %v", len(want), err)
 				return
 			}
 			variant := render(splitLines(text), k.L)
-			r1, _ := bed.NewReader(bytes.NewReader(variant), k.BedTyp)
+			src1 := bytes.NewReader(variant)
+			r1, _ := bed.NewReader(src1, k.BedTyp)
 			got, _, err := featgen.ReadFeatures(r1, len(k.Bed)+2)
 			if err != nil {
 				fail("read-error/"+layoutClass(k.L), "layout %s: %v (text %q)", enum.J(k.L), err, clip(variant))
@@ -189,6 +192,15 @@ func check(c *enum.Ctx, k kase) {
 			}
 			if a, b := fmt.Sprint(featStrings(got, k.BedTyp)), fmt.Sprint(featStrings(want, k.BedTyp)); a != b {
 				fail("records-differ/"+layoutClass(k.L), "layout %s: %d records %s, want %d records %s (text %q)", enum.J(k.L), len(got), a, len(want), b, clip(variant))
+				return
+			}
+			// the same readers used for a second pass after their sources were rewound
+			src0.Seek(0, io.SeekStart)
+			src1.Seek(0, io.SeekStart)
+			want2, _, err0 := featgen.ReadFeatures(r0, len(k.Bed)+2)
+			got2, _, err1 := featgen.ReadFeatures(r1, len(k.Bed)+2)
+			if a, b := fmt.Sprint(featStrings(got2, k.BedTyp), err1), fmt.Sprint(featStrings(want2, k.BedTyp), err0); a != b {
+				fail("second-pass-differs/"+layoutClass(k.L), "layout %s: second pass over the rewound source gives %s, the canonical file gives %s (text %q)", enum.J(k.L), a, b, clip(variant))
 			}
 		case "gff":
 			text, err := featgen.WriteGff(k.Gff, 3, false)
@@ -196,19 +208,31 @@ func check(c *enum.Ctx, k kase) {
 				fail("write", "%v", err)
 				return
 			}
-			want, _, err := featgen.ReadFeatures(gff.NewReader(bytes.NewReader(text)), len(k.Gff)+2)
+			src0 := bytes.NewReader(text)
+			r0 := gff.NewReader(src0)
+			want, _, err := featgen.ReadFeatures(r0, len(k.Gff)+2)
 			if err != nil || len(want) != len(k.Gff) {
 				fail("canonical-read", "canonical file: %d items, err %v", len(want), err)
 				return
 			}
 			variant := render(splitLines(text), k.L)
-			got, _, err := featgen.ReadFeatures(gff.NewReader(bytes.NewReader(variant)), len(k.Gff)+2)
+			src1 := bytes.NewReader(variant)
+			r1 := gff.NewReader(src1)
+			got, _, err := featgen.ReadFeatures(r1, len(k.Gff)+2)
 			if err != nil {
 				fail("read-error/"+layoutClass(k.L), "layout %s: %v (text %q)", enum.J(k.L), err, clip(variant))
 				return
 			}
 			if a, b := fmt.Sprint(featStrings(got, 0)), fmt.Sprint(featStrings(want, 0)); a != b {
 				fail("records-differ/"+layoutClass(k.L), "layout %s: %d items %s, want %d items %s (text %q)", enum.J(k.L), len(got), a, len(want), b, clip(variant))
+				return
+			}
+			src0.Seek(0, io.SeekStart)
+			src1.Seek(0, io.SeekStart)
+			want2, _, err0 := featgen.ReadFeatures(r0, len(k.Gff)+2)
+			got2, _, err1 := featgen.ReadFeatures(r1, len(k.Gff)+2)
+			if a, b := fmt.Sprint(featStrings(got2, 0), err1), fmt.Sprint(featStrings(want2, 0), err0); a != b {
+				fail("second-pass-differs/"+layoutClass(k.L), "layout %s: second pass over the rewound source gives %s, the canonical file gives %s (text %q)", enum.J(k.L), a, b, clip(variant))
 			}
 		}
 	})
@@ -297,7 +321,7 @@ func layouts(n int, blankSites []int, trailing bool, pairs bool) []layout {
 }
 
 func run(c *enum.Ctx) {
-	c.Rule("FASTA read into plain and quality-carrying templates, and written/read with ID and sequence-line prefixes; every FASTA/FASTQ file read alternately with a companion reader of another configuration; valid files from the C01/C02 generators (DNA and protein records, the protein stop letter alone on a line) (<=2 records; FASTA also a 12289-letter record) x layout transformations: FASTA re-wrap at widths {1,2,3,60,4095,4096,4097,20000}, a blank line - empty or holding white space only - at every line boundary (thorough: every pair), trailing ' ', tab, ' tab' on each line and on all lines, CRLF, no final newline, and their pairwise combinations; FASTQ: CRLF, blank lines at record boundaries, trailing blanks, no final newline; BED (every type) and GFF (features, regions, inline sequences last or not; a record whose line is 4094..4097, 8191..8193 and 12288 bytes long, last and first): CRLF x final newline; oracle: the record list of the variant equals that of the canonical file; non-trivial = variants that differ from the canonical text")
+	c.Rule("FASTA read into plain and quality-carrying templates, and written/read with ID and sequence-line prefixes; every FASTA/FASTQ file read alternately with a companion reader of another configuration; valid files from the C01/C02 generators (DNA and protein records, the protein stop letter alone on a line) (<=2 records; FASTA also a 12289-letter record) x layout transformations: FASTA re-wrap at widths {1,2,3,60,4095,4096,4097,20000}, a blank line - empty or holding white space only - at every line boundary (thorough: every pair), trailing ' ', tab, ' tab' on each line and on all lines, CRLF, no final newline, and their pairwise combinations; FASTQ: CRLF, blank lines at record boundaries, trailing blanks, no final newline; BED (every type) and GFF (features, regions, inline sequences last or not; a record whose line is 4094..4097, 8191..8193 and 12288 bytes long, last and first): CRLF x final newline; oracle: the record list of the variant equals that of the canonical file, for BED/GFF also on a second pass of the same reader after its source was rewound; non-trivial = variants that differ from the canonical text")
 	c.Assume("blank lines inside a FASTQ record and trailing blanks/blank lines in BED/GFF are not covered by the statement and are not generated")
 	var cases []kase
 	recs := []seqgen.Rec{
